@@ -1,6 +1,7 @@
 import Properties.C03
 import Properties.C01
 import Proofs.Shape
+import Properties.C05
 namespace Dltype.C03p
 open Dltype Dltype.Spec Dltype.Proofs
 
@@ -25,5 +26,21 @@ theorem accepted_conforms_parsed (acc : Acc) (σ₀ : Scope) (es : List Entry) (
     ScopeLe σ₀ st'.σ ∧ ∀ e ∈ es, EntryConforms acc st'.σ e :=
   C01.accepted_conforms acc σ₀ [] es st'
     (fun e he => by obtain ⟨s, c, o, hs⟩ := hp e he; exact (parseShape_wf s c o e.ann hs).1) h
+
+/-- **C01 in the terms of the documented grammar**: if a dimension string is read by the independent
+    recogniser as the expression tree `t` (so the parser reads it as `t` too), is neither a plain name nor a bare
+    literal, and the axis of size `a` it annotates conforms under the final bindings `σ` of an accepted
+    context, then the ARITHMETIC VALUE of `t` under `σ` (precedence, left-to-right association, floor
+    division, floor square root) is `a`. -/
+theorem expression_axis_has_arithmetic_value (s : List Char) (t : Tree) (σ : Scope) (a : Nat)
+    (hrec : recogniseExpr s = some t)
+    (hni : ({ identifier := s, post := t.post } : DimExpr).isIdentifier = false)
+    (hnl : ({ identifier := s, post := t.post } : DimExpr).isLiteral = false)
+    (h : ∀ d, parseDim s = .ok d → DimConforms σ d a) : t.eval σ.get? = some (Int.ofNat a) := by
+  obtain ⟨hs, hwf⟩ := C05.recogniser_is_sound s t hrec
+  have hp := C05.parser_accepts_what_recogniser_accepts s t hrec
+  have hc := h _ hp
+  subst hs
+  exact C05.checker_demands_tree_value t hwf σ a hni hnl hc
 
 end Dltype.C03p
